@@ -267,11 +267,6 @@ func (c *compiler) assembleLine(in sourceLine) (Instruction, error) {
 func (c *compiler) compile() (WarriorData, error) {
 	c.loadSymbols()
 
-	err := c.evaluateAssertions()
-	if err != nil {
-		return WarriorData{}, err
-	}
-
 	graph := buildReferenceGraph(c.values)
 	cyclic, cyclicKey := graphContainsCycle(graph)
 	if cyclic {
@@ -283,6 +278,13 @@ func (c *compiler) compile() (WarriorData, error) {
 		return WarriorData{}, err
 	}
 	c.values = resolved
+
+	// assertions are expanded with the symbol values, so they can only be
+	// evaluated once the values are known to be free of cycles
+	err = c.evaluateAssertions()
+	if err != nil {
+		return WarriorData{}, err
+	}
 
 	code := make([]Instruction, 0)
 	for _, line := range c.lines {
